@@ -61,6 +61,20 @@ def real_match(res):
     return res[0] == 'ok' and any(not is_pseudo(x) for rn, _ in res[1] for x in rn)
 
 
+def key_matches_some_rule(chk, key):
+    """some real rule is reported for the key name; matches produced before a user function raises count
+    (check() returns at the first hit and never reaches the raising edge)"""
+    if isinstance(chk.model.nodes, L.CountingList):
+        chk.model.nodes.left = L.IMPL_BUDGET
+    try:
+        for rn, _ in chk.match(key):
+            if any(not is_pseudo(x.encode()) for x in rn):
+                return True
+    except Exception:   # noqa
+        pass
+    return False
+
+
 def check_schema(ctx, ast, fe, lits, tag, maxlen, npairs):
     M = ctx.call
     rng = ctx.rng
@@ -70,6 +84,9 @@ def check_schema(ctx, ast, fe, lits, tag, maxlen, npairs):
     case = {'schema': text}
     if r[0] == 'err':
         ctx.case((text, 'compile-error'), True, None, 'compile.' + str(r[1]))
+        return
+    if L.too_big(r):
+        ctx.stat('schemas.skipped-huge-model')
         return
     model = r[1]
     dump = L.dump_model(model)
@@ -117,7 +134,7 @@ def check_schema(ctx, ast, fe, lits, tag, maxlen, npairs):
                 ctx.violation('Checker.check', 'yes-though-schema-says-no', 'check() is True but can_sign does not hold', cs)
             elif want and not ri[1]:
                 ctx.violation('Checker.check', 'no-though-schema-says-yes', 'check() is False but can_sign holds', cs)
-            if ri[1] and is_closed and not real_match(L.impl_match(chk, k)):
+            if ri[1] and is_closed and not key_matches_some_rule(chk, k):
                 ctx.violation('Checker.check', 'yes-for-key-matching-no-rule', 'check() is True for a key name that matches no rule', cs)
         elif not has_fn(ast):
             ctx.violation('Checker.check', 'raises-' + ri[2].split(':')[0], 'check() raises on a schema without user functions', cs)
